@@ -352,6 +352,7 @@ type c27DataSpec struct {
 	GapP     float64 // probability that a series has no row in a slot
 	UnsetJ   bool    // some rows have tag j unset (0)
 	EqualCnt bool    // every row has count 1
+	Big      float64 // != 0: every value is Big + a spread of a few units (counters, byte sizes, timestamps)
 }
 
 func c27GenStore(rnd *rand.Rand, sp c27DataSpec) *c27Store {
@@ -390,6 +391,9 @@ func c27GenStore(rnd *rand.Rand, sp c27DataSpec) *c27Store {
 				s.gapFrom = sp.Start - sp.History/2 + rnd.Int64N(span+sp.History/2)
 				s.gapLen = sp.Step * int64(rnd.IntN(8))
 				s.base = float64(rnd.IntN(400)-100) / 4
+				if sp.Big != 0 {
+					s.base = sp.Big + float64(rnd.IntN(5))
+				}
 				sers = append(sers, s)
 			}
 		}
@@ -416,6 +420,9 @@ func c27GenStore(rnd *rand.Rand, sp c27DataSpec) *c27Store {
 					if mid == 1 {
 						for i := 0; i < n; i++ {
 							v := s.base + float64(rnd.IntN(81)-40)/4
+							if sp.Big != 0 {
+								v = s.base + float64(rnd.IntN(21))/4 // spread 0..5
+							}
 							r.sum += v
 							r.sumsq += v * v
 							if i == 0 || v < r.mn {
